@@ -118,6 +118,45 @@ def _note_text(texts: Dict[str, List[bool]], state: Dict[str, bytes], newest: st
         texts[t] = crashlib.real_json_verdict(t)
 
 
+def _payload_damage(rng: random.Random, created: bytes, after: Dict[str, bytes], newest: str, n: int = 7):
+    """Images of `after` whose newest container keeps its complete user block (hash present) while
+    a slice of the payload region differs from what was committed: (label, state) pairs."""
+    ub = reclib.UB_SIZE
+    full = after[newest]
+    pay = full[ub:]
+    old = created[ub:]
+    if len(pay) < 16:
+        return []
+    # the region the round wrote: first .. last byte differing from the container as created
+    oldp = old[:len(pay)] + bytes(max(0, len(pay) - len(old)))
+    diff = [j for j in range(len(pay)) if pay[j] != oldp[j]]
+    lo, hi = (diff[0], diff[-1] + 1) if diff else (0, len(pay))
+    out = []
+    for t in range(n):
+        kind = ("stale", "zero", "stale", "cut", "stale", "zero", "flip")[t % 7]
+        if t % 2 == 0 or hi - lo < 2:      # anywhere in the payload / inside the written region
+            a = rng.randrange(len(pay))
+        else:
+            a = rng.randrange(lo, hi)
+        ln = rng.choice([1, 8, 64, 512, 4096, len(pay)])
+        b = min(len(pay), a + ln)
+        if kind == "cut":
+            newp = pay[:a]
+        elif kind == "zero":
+            newp = pay[:a] + bytes(b - a) + pay[b:]
+        elif kind == "stale":
+            newp = pay[:a] + oldp[a:b] + pay[b:]
+        else:
+            newp = pay[:a] + bytes(x ^ 0xFF for x in pay[a:b]) + pay[b:]
+        if newp == pay:                    # the slice held these bytes already: flip it instead
+            kind = "flip"
+            newp = pay[:a] + bytes(x ^ 0xFF for x in pay[a:b]) + pay[b:]
+        st = dict(after)
+        st[newest] = full[:ub] + newp
+        out.append((f"paydmg:{kind}:{a}+{b - a}", st))
+    return out
+
+
 def w_history(arg) -> Dict[str, Any]:
     """One history: record, enumerate crash states, judge each with the real code."""
     cls_name, seed, nrounds, root = arg
@@ -139,9 +178,10 @@ def _history(cls_name, seed, nrounds, root, rounds=None) -> Dict[str, Any]:
     names = Names()
     committed: List[Dict[str, Any]] = []
     out: Dict[str, Any] = {"cls": cls_name, "seed": seed, "rounds": [], "violations": [], "states": 0,
-                           "ids": set(), "timeouts": 0, "in_points": 0, "in_new": 0, "in_classes": {}, "texts": {}}
+                           "ids": set(), "timeouts": 0, "in_points": 0, "in_new": 0, "in_classes": {}, "texts": {}, "dmg": {}}
     model_rounds: List[Any] = []
     c0_rows = None
+    drng = random.Random(seed * 7919 + 13)      # payload damage: own stream, same in a replay with given rounds
     for i, rd in enumerate(rec["rounds"]):
         states = crashlib.crash_states(cls_name, rd, i == 0)
         if i == 0:      # nothing on disk yet: the model's state 0
@@ -225,6 +265,28 @@ def _history(cls_name, seed, nrounds, root, rounds=None) -> Dict[str, Any]:
                     "ops": [r["ops"] for r in rec["rounds"][:i + 1]],
                     "case": {"cls": cls_name, "state": crashlib.freeze_state(cs["state"]),
                              "committed": committed, "next_view": rd["view"], "clean": cs["clean"],
+                             "next_meta": next_meta}})
+        # ---- crash images of the commit in which the newest container's user block is complete
+        # (hash present, sidecar written) but a slice of its HDF5 payload never reached the disk:
+        # stale (bytes as of create_patch, zeros past the old end), zeroed, or cut off at the end.
+        # Same oracle: the set is refused or shows exactly a committed state, never a third one.
+        for dj, (dlabel, dstate) in enumerate(_payload_damage(drng, rd["created"].get(newest, b""), after, newest)):
+            sid = _state_id(dstate)
+            if sid in round_ids:
+                continue
+            round_ids.add(sid)
+            out["ids"].add(sid)
+            o = crashlib.oracle(cls_name, dstate, committed, rd["view"], root,
+                                check_alone=dj == 0, clean_payload=False, next_meta=next_meta)
+            out["states"] += 1
+            kk = f"{cls_name}/{min(i, 2)}{'+' if i >= 2 else ''} patches/{dlabel.split(':')[1]}->{o.get('class')}"
+            out["dmg"][kk] = out["dmg"].get(kk, 0) + 1
+            if not o["ok"] and len(out["violations"]) < 2:
+                out["violations"].append({
+                    "what": o["why"], "label": dlabel, "round": i, "cls": cls_name, "seed": seed,
+                    "ops": [r["ops"] for r in rec["rounds"][:i + 1]],
+                    "case": {"cls": cls_name, "state": crashlib.freeze_state(dstate),
+                             "committed": committed, "next_view": rd["view"], "clean": False,
                              "next_meta": next_meta}})
         sig = [crashlib.write_signature(rd["ev_create"], newest), crashlib.write_signature(rd["ev_commit"], newest)]
         # the container this round committed
@@ -657,6 +719,7 @@ def analyse(ctx, res) -> Dict[str, Any]:
         "intercepted_write_points": sum(r["in_points"] for r in res),
         "intercepted_points_not_among_synthesised": sum(r["in_new"] for r in res),
         "intercepted_new_point_outcomes": _merge(r["in_classes"] for r in res),
+        "payload_damage_with_complete_user_block": _merge(r["dmg"] for r in res),
         "write_sequences_seen": sorted(sig_seen), "write_sequence_mismatches": sig_bad,
         "json_texts_compared": len(tlist), "json_torn_block_texts": n_torn_texts, "json_texts_accepted_by_json_loads": json_accept,
         "json_recogniser_disagreements": json_bad, "json_texts_with_capital_N_or_I": ni,
